@@ -291,3 +291,53 @@ print('NOT-REPRODUCED'); sys.exit(0)
 '''
 
 PROBES = PROBES + [("an explicit name equal to the class name", NAME_IS_CLASS_REPLAY)]
+
+
+
+# ---------------------------------------------------------------------------------------------
+# concrete probe: constructors with keyword-only arguments
+# ---------------------------------------------------------------------------------------------
+KWONLY_REPLAY = '''import sys, os, itertools
+sys.path.insert(0, os.environ.get('PYVC_REPO', '/repo'))
+import param
+bad = []
+def values_of(o):
+    v = dict(o.param.values()); v.pop('name'); return v
+SIGS = {'gain=1, *, channel': "gain=gain, channel=channel", 'gain=1, *, channel, mode=0': "gain=gain, channel=channel, mode=mode",
+        '*, channel, gain=1': "gain=gain, channel=channel", 'channel, *, gain=1, mode=1': "gain=gain, channel=channel, mode=mode"}
+for sig, fwd in SIGS.items():
+    src = ("""
+class Probe(param.Parameterized):
+    gain = param.Number(default=0)
+    channel = param.Integer(default=0)
+    mode = param.Integer(default=0)
+    def __init__(self, %s, **params):
+        super().__init__(%s, **params)
+""") % (sig, fwd)
+    ns = {'param': param, '__name__': 'probemod'}
+    exec(src, ns)
+    Probe = ns['Probe']
+    import inspect
+    kwonly = inspect.getfullargspec(Probe.__init__).kwonlyargs
+    for gain, channel, mode in itertools.product((1, -2, 0), (1, 0, 5), (0, 1)):
+        kw = {'gain': gain, 'channel': channel}
+        if 'mode' in sig: kw['mode'] = mode
+        elif mode: continue
+        o = Probe(**kw)
+        # class of the case: some keyword-only argument holds exactly its Parameter's default (then the text
+        # leaves it out like any unchanged Parameter — the known weakness), or none does
+        tag = 'keyword-only argument at its Parameter default' if any(kw[a] == Probe.param[a].default for a in kwonly) else 'no keyword-only argument at its Parameter default'
+        for how, text in (('pprint', o.param.pprint()), ('script_repr', param.script_repr(o, show_imports=False))):
+            try:
+                import types; r = eval(text, {'Probe': Probe, 'param': param, 'probemod': types.SimpleNamespace(Probe=Probe)})
+            except Exception as e:
+                bad.append('[%s] %s of Probe(%s) built with %r: %r does not evaluate (%r)' % (tag, how, sig, kw, text, e)); continue
+            if values_of(r) != values_of(o):
+                bad.append('[%s] %s of Probe(%s) built with %r: %r rebuilds %r, the original holds %r' % (tag, how, sig, kw, text, values_of(r), values_of(o)))
+if bad:
+    bad.sort(key=lambda b: b.startswith('[keyword-only argument at'))
+    print('REPRODUCED:'); print(bad[0]); sys.exit(1)
+print('NOT-REPRODUCED'); sys.exit(0)
+'''
+
+PROBES = PROBES + [("constructors with keyword-only arguments", KWONLY_REPLAY)]
